@@ -174,6 +174,18 @@ def gen(cls, idx, rng, tier):
         # every method x every plan in rotation (floors are met by
         # construction, not by luck)
         name = sorted(MC_METHODS)[(idx // len(PLANS)) % len(MC_METHODS)]
+        case = gen_mc(name, idx, rng)
+        if name in DEFAULTS and rng.random() < .3:
+            # the caller names, explicitly, the very value the method would
+            # default to: it still overrides whatever the context holds
+            case["resolved"].update(DEFAULTS[name])
+            case["explicit_default"] = True
+        return case
+    return gen_rest(cls, idx, rng, tier)
+
+
+def gen_mc(name, idx, rng):
+    if True:
         return dict(kind="mc", method=name, plan=PLANS[idx % len(PLANS)],
                     seed=rng.randrange(1 << 30),
                     refuse=name in REFUSABLE and rng.random() < .3,
@@ -187,6 +199,10 @@ def gen(cls, idx, rng, tier):
                                processor=rng.randrange(1, 17),
                                link=rng.randrange(6),
                                app_id=rng.choice([18, 31, 67, 201])))
+    raise AssertionError(cls)
+
+
+def gen_rest(cls, idx, rng, tier):
     if cls == "nesting":
         ops = []
         depth = 0
